@@ -35,7 +35,7 @@ def render (s : St) : String :=
   let i := match s.inflight with | some (e, _) => toString e.idx | none => "-1"
   let fl := if s.fs.isEmpty then "-" else
     ";".intercalate (s.fs.map fun f => s!"{b01 f.cur.resp}.{b01 f.cur.err}.{b01 f.cur.marked}.{b01 f.backup.isSome}.{f.cur.ver}")
-  s!"{q} {i} {fl}"
+  s!"{q} {i} {fl}|v{variant s}"
 
 def c53Step (s : St) (line : String) : St × String :=
   match fields line with
